@@ -21,13 +21,28 @@ type c19Gen struct {
 	kinds map[string]bool
 	cycle bool
 	multi bool
+	pkg   []bool // module j lives in the directory pk/ and is named pk.mj (from-imports only: gpython implements no other form for dotted names)
+}
+
+func (c *c19Gen) inPkg(j int) bool { return j < len(c.pkg) && c.pkg[j] }
+
+// mname is the name module j is imported by
+func (c *c19Gen) mname(j int) string {
+	if c.inPkg(j) {
+		return fmt.Sprintf("pk.m%d", j)
+	}
+	return fmt.Sprintf("m%d", j)
 }
 
 // importStmt renders one import of module j in a generated form; bound lists the names it binds
 func (c *c19Gen) importStmt(j int, inModule bool) (stmt string, kind string) {
 	g := c.g
-	m := fmt.Sprintf("m%d", j)
-	switch g.Weighted(3, 2, 2, 2, 2, 1) {
+	m := c.mname(j)
+	ws := []int{3, 2, 2, 2, 2, 1}
+	if c.inPkg(j) {
+		ws = []int{0, 0, 3, 2, 3, 1}
+	}
+	switch g.Weighted(ws...) {
 	case 0:
 		return "import " + m, "import"
 	case 1:
@@ -109,6 +124,13 @@ func (c *c19Gen) main() string {
 		case 1: // mutate through one importer, read through another
 			j := g.N(c.n)
 			c.kinds["mutate"] = true
+			if c.inPkg(j) {
+				c.kinds["dotted-mutate"] = true
+				sb.WriteString(wrap(fmt.Sprintf("from pk.m%d import lst%d, bump\n    lst%d.append(5)\n    from pk.m%d import lst%d as q, bump as b2\n    lg.log.append((q, q is lst%d, bump(), b2(), b2 is bump))", j, j, j, j, j, j)))
+				sb.WriteString(wrap(fmt.Sprintf("from pk.m%d import counter as z, lst%d as zl\n    lg.log.append((z, zl))", j, j)))
+				c.multi = true
+				continue
+			}
 			sb.WriteString(wrap(fmt.Sprintf("import m%d\n    m%d.x%d = 777\n    m%d.lst%d.append(5)\n    import m%d as q\n    lg.log.append((q.x%d, q.lst%d, q is m%d, m%d.bump(), q.bump()))", j, j, j, j, j, j, j, j, j, j)))
 			sb.WriteString(wrap(fmt.Sprintf("from m%d import x%d as z, lst%d as zl\n    lg.log.append((z, zl))", j, j, j)))
 			c.multi = true
@@ -118,8 +140,12 @@ func (c *c19Gen) main() string {
 		case 3:
 			c.kinds["missing-name"] = true
 			j := g.N(c.n)
-			sb.WriteString(wrap(fmt.Sprintf("import m%d", j)))
-			sb.WriteString(wrapx(fmt.Sprintf("from m%d import nosuchname", j), false))
+			if !c.inPkg(j) {
+				sb.WriteString(wrap(fmt.Sprintf("import m%d", j)))
+			} else {
+				sb.WriteString(wrap(fmt.Sprintf("from pk.m%d import lst%d", j, j)))
+			}
+			sb.WriteString(wrapx(fmt.Sprintf("from %s import nosuchname", c.mname(j)), false))
 		case 4:
 			c.kinds["builtin-module"] = true
 			sb.WriteString(wrap("import math\n    import math as mm\n    from math import pi\n    lg.log.append((math is mm, pi == math.pi, mm.floor(2.5)))"))
@@ -147,6 +173,7 @@ func c19Run(r *Run, files map[string]string, mainProg string) (*Diff, error) {
 	}
 	defer os.RemoveAll(dir)
 	for name, content := range files {
+		os.MkdirAll(filepath.Dir(filepath.Join(dir, name)), 0o755)
 		if err := os.WriteFile(filepath.Join(dir, name), []byte(content), 0o644); err != nil {
 			return nil, err
 		}
@@ -158,7 +185,8 @@ func TestC19(t *testing.T) {
 	r := StartRun(t, "C19")
 	defer r.Finish()
 	r.Extra("rule", "rapid-drawn import graphs over 2-5 generated source modules (chains, diamonds, 2- and 3-cycles, self-import) whose bodies log their own execution into a shared module, "+
-		"with imports in every statement form (import m, import m as n, from m import a, from m import a as b, from m import *, parenthesised lists) before or after the definitions, optional "+
+		"with imports in every statement form (import m, import m as n, from m import a, from m import a as b, from m import *, parenthesised lists) before or after the definitions, a quarter "+
+		"of the modules placed in a directory and imported by dotted name (from pk.m import ... forms), optional "+
 		"__all__ and underscore names; a main program importing in a generated order and form, mutating through one importer and reading through another, importing missing modules "+
 		"and names under try/except ImportError and continuing, and built-in Go modules (math, sys) through two paths. Oracle: CPython with the same directory on sys.path: execution log, "+
 		"values, identities, the sorted set of names bound in main. Non-trivial: a module imported >=2 times through different statements, or a cycle, or a star import; distinct by files+main.")
@@ -171,6 +199,9 @@ func TestC19(t *testing.T) {
 	rapid.Check(t, func(rt *rapid.T) {
 		c := &c19Gen{g: &G{T: rt}, r: r, kinds: map[string]bool{}}
 		c.n = c.g.Int(2, 5)
+		for i := 0; i < c.n; i++ {
+			c.pkg = append(c.pkg, c.g.Chance(1, 4))
+		}
 		edges := make([][]int, c.n)
 		for i := 0; i < c.n; i++ {
 			ne := c.g.Int(0, 2)
@@ -194,8 +225,13 @@ func TestC19(t *testing.T) {
 		var all strings.Builder
 		for i := 0; i < c.n; i++ {
 			src := c.module(i, edges)
-			files[fmt.Sprintf("m%d.py", i)] = src
-			fmt.Fprintf(&all, "# m%d.py\n%s", i, src)
+			fname := fmt.Sprintf("m%d.py", i)
+			if c.inPkg(i) {
+				fname = "pk/" + fname
+				c.kinds["dotted-module"] = true
+			}
+			files[fname] = src
+			fmt.Fprintf(&all, "# %s\n%s", fname, src)
 		}
 		mainProg := c.main()
 		all.WriteString("# main\n" + mainProg)
